@@ -71,7 +71,25 @@ def build(md, spec):
         base = rng.uniform(0, 2.0, size=(1, n, 3))
         xyz = (base + rng.normal(0, 0.15, size=(F, n, 3))).astype(np.float32)
         t = md.Trajectory(xyz, top)
-    if spec.get("cell"):
+    if spec.get("cell_series") == "one-component":
+        # a sheared cell in which exactly ONE of the six independent components of the box matrix changes from a frame to
+        # the next (a_x, b_x, b_y, c_x, c_y, c_z in turn) while all others keep their value: "has the box changed?"
+        # shortcuts that look at part of the box, and anything cached from the previous frame, show up
+        F = t.n_frames
+        rng = np.random.RandomState(spec.get("cell_seed", 5))
+        V = np.zeros((F, 3, 3), dtype=np.float64)
+        base = np.array([[3.1, 0.0, 0.0], [0.9, 3.3, 0.0], [-0.7, 1.1, 3.5]])
+        comps = [(2, 2), (1, 1), (2, 1), (2, 0), (1, 0), (0, 0)]
+        rng.shuffle(comps)
+        cur = base.copy()
+        for f in range(F):
+            if f > 0:
+                i, j = comps[(f - 1) % 6]
+                cur = cur.copy()
+                cur[i, j] += rng.choice([-1, 1]) * rng.uniform(0.25, 0.5)
+            V[f] = cur
+        t.unitcell_vectors = V.astype(np.float32)
+    elif spec.get("cell"):
         # per-frame cell that varies in KIND as well as size: 'O' = rectangular (exact zeros off the diagonal),
         # 'T' = sheared; pattern is cycled over the frames.  Coordinates deliberately reach outside the cell.
         F = t.n_frames
@@ -95,6 +113,11 @@ def build(md, spec):
         t.unitcell_angles = np.tile(np.array([[90.0, 90.0, 90.0]], dtype=np.float32), (F, 1))
     elif spec["kind"] == "random":
         t.unitcell_vectors = None
+    return t
+
+
+def _centered(t):
+    t.center_coordinates()
     return t
 
 
@@ -124,6 +147,9 @@ def analyses(md, t0):
     if has_box:
         A["displacements_pbc"] = lambda t: list(md.compute_displacements(t, pairs, periodic=True))
         A["distances_pbc_noopt"] = lambda t: list(md.compute_distances(t, pairs, periodic=True, opt=False))
+        A["displacements_pbc_noopt"] = lambda t: list(md.compute_displacements(t, pairs, periodic=True, opt=False))
+        A["angles_pbc_noopt"] = lambda t: list(md.compute_angles(t, trip, periodic=True, opt=False))
+        A["dihedrals_pbc_noopt"] = lambda t: list(md.compute_dihedrals(t, quad, periodic=True, opt=False))
         A["density"] = lambda t: list(md.density(t))
         A["distances_pbc"] = lambda t: list(md.compute_distances(t, pairs, periodic=True))
         A["angles_pbc"] = lambda t: list(md.compute_angles(t, trip, periodic=True))
@@ -139,12 +165,32 @@ def analyses(md, t0):
     A["neighbors"] = lambda t: list(md.compute_neighbors(t, 0.45, query, periodic=has_box))
     A["neighborlist"] = lambda t: [list(md.compute_neighborlist(t, 0.45, frame=i, periodic=has_box))
                                    for i in range(t.n_frames)]
+    masses = np.array([a.element.mass if a.element is not None else 1.0 for a in t0.topology.atoms])
+    hay = np.arange(1, n, 3)
+    A["rg_masses"] = lambda t: list(md.compute_rg(t, masses=masses))
+    A["center_of_geometry"] = lambda t: list(md.compute_center_of_geometry(t))
+    A["gyration_tensor"] = lambda t: list(md.compute_gyration_tensor(t))
+    A["principal_moments"] = lambda t: list(md.principal_moments(t))
+    A["asphericity"] = lambda t: list(md.asphericity(t))
+    A["distances_noopt"] = lambda t: list(md.compute_distances(t, pairs, periodic=False, opt=False))
+    A["displacements_noopt"] = lambda t: list(md.compute_displacements(t, pairs, periodic=False, opt=False))
+    A["angles_noopt"] = lambda t: list(md.compute_angles(t, trip, periodic=False, opt=False))
+    A["dihedrals_noopt"] = lambda t: list(md.compute_dihedrals(t, quad, periodic=False, opt=False))
+    A["rmsd_ref_subset"] = lambda t: list(md.rmsd(t, refs[0], 0, atom_indices=sub, ref_atom_indices=sub))
+    A["rmsd_precentered"] = lambda t: list(md.rmsd(_centered(t), _centered(refs[0]), 0, precentered=True))
+    A["sasa_atom_sel"] = lambda t: list(md.shrake_rupley(t, n_sphere_points=24, mode="atom", atom_indices=list(sub)))
+    A["sasa_residue_sel"] = lambda t: list(md.shrake_rupley(t, n_sphere_points=24, mode="residue", atom_indices=list(sub), probe_radius=0.1))
+    A["drid_all"] = lambda t: list(md.compute_drid(t)) if n <= 120 else list(md.compute_drid(t, atom_indices=np.arange(0, n, max(1, n // 40))))
+    A["neighbors_haystack"] = lambda t: list(md.compute_neighbors(t, 0.45, query, haystack_indices=hay, periodic=has_box))
     A["rg"] = lambda t: list(md.compute_rg(t))
     A["center_of_mass"] = lambda t: list(md.compute_center_of_mass(t))
     A["drid"] = lambda t: list(md.compute_drid(t, atom_indices=sub[:10]))
     A["inertia_tensor"] = lambda t: list(md.compute_inertia_tensor(t))
     if t0.n_residues >= 5 and len(res_pairs):
         A["contacts"] = lambda t: list(md.compute_contacts(t, contacts=res_pairs, scheme="closest", periodic=False)[0])
+        A["contacts_ca"] = lambda t: list(md.compute_contacts(t, contacts=res_pairs, scheme="ca", periodic=False)[0])
+        A["contacts_heavy_softmin"] = lambda t: list(md.compute_contacts(t, contacts=res_pairs, scheme="closest-heavy", periodic=False,
+                                                                         soft_min=True)[0])
         if has_box:
             A["contacts_pbc"] = lambda t: list(md.compute_contacts(t, contacts=res_pairs, scheme="closest", periodic=True)[0])
     if any(a.name == "H" or (a.element is not None and a.element.symbol == "H") for a in t0.topology.atoms) and t0.n_residues >= 5:
